@@ -2,8 +2,8 @@ SPECIFICATION RSpec
 CONSTANTS
   T = 8196
   Window = 8196
-  Dev = {}
-  MaxLen = 7
+  Dev = {"single_write"}
+  MaxLen = 6
   Small = 40
   Big = 9000
 INVARIANT AllComplete
